@@ -72,6 +72,9 @@ def epa(simplex, collider1, collider2, max_iter=64, max_loose_edges=32, max_face
         loose_edges.find_triangles_facing_point_and_store_loose_edges(
             polytope, new_point)
         polytope.extend_with_point(loose_edges, new_point)
+        if polytope.n_faces == 0:
+            # Degenerate polytope: all faces have been removed.
+            break
 
     # Return most recent closest point
     mtv = closest_face[3] * np.dot(closest_face[0], closest_face[3])
